@@ -110,7 +110,7 @@ class SourceInfo:
         self.files = {}        # path -> raw text lines
         self.clean = {}        # path -> comment-stripped text
 
-    def add_file(self, path, key=None):
+    def add_file(self, path, key=None, ns=None):
         try:
             raw = open(path, errors='replace').read()
         except OSError:
@@ -134,6 +134,8 @@ class SourceInfo:
                             tys.append(' '.join(fm.group(2).split()))
                     self.structs.setdefault(name, names)
                     self.struct_types.setdefault(name, tys)
+                    if ns:
+                        self.structs.setdefault(ns + '::' + name, names)
                 elif opener == '(':
                     end = _match(clean, m.end() - 1, '(', ')')
                     n = len(_split_top(clean[m.end():end]))
@@ -169,10 +171,12 @@ class SourceInfo:
                     variants.append((vname, nxt, fields))
                     nxt += 1
                 self.enums.setdefault(name, variants)
+                if ns:
+                    self.enums.setdefault(ns + '::' + name, variants)
 
-    def add_tree(self, root, prefix=''):
+    def add_tree(self, root, prefix='', ns=None):
         for p in sorted(glob.glob(os.path.join(root, '**', '*.rs'), recursive=True)):
-            self.add_file(p, prefix + os.path.relpath(p, root))
+            self.add_file(p, prefix + os.path.relpath(p, root), ns)
 
     # ---- impl header lookup ---------------------------------------------------------
     def impl_at(self, file, line, col, line2, col2):
